@@ -449,7 +449,7 @@ def run(ck: core.Check):
         "distinct by (operator, attributes, input types) or program seed"
     )
     ck.assumptions += [
-        "onnxruntime 1.30 CPU is the runtime the property speaks about (ONNX reference evaluator not consulted)",
+        "onnxruntime 1.30 CPU is the runtime the property speaks about; the ONNX reference evaluator is consulted only to classify a non-conforming value of a plain standard operator as a disagreement between the two runtimes",
         "Model/RtShape.lean (runtime shapes from the ONNX-ML spec) — validated against onnxruntime on every run for dims<=3; beyond that by its uniformity in the dims",
         "ONNX's own Loop inference gives carried outputs element type only and scan outputs one leading unknown dim (observed by the Loop correspondence)",
         "element types of a statically typed ONNX graph never change at run time (hypothesis `hElem` of loop_carried_sound)",
